@@ -2,7 +2,7 @@
 import re
 
 from analysis import (Prov, Guards, fmt, fmt_short, walk, roots, short, comparison, find_calls, callee_matches,
-                      must_pass, path_to, describe_path, linear, normalised_cmp, const_int_of, cmp_intervals, edge_label, canon, closures_of, closure_return_in_caller_terms)
+                      must_pass, path_to, describe_path, linear, normalised_cmp, const_int_of, cmp_intervals, edge_label, canon, closures_of, closure_return_in_caller_terms, flag_cases)
 from facts import AnchorError, strip_closure
 from harness import Rule, guarded
 
@@ -259,16 +259,17 @@ def r2(ctx):
                 want_bit = {"ZoomIn": True, "ZoomOut": False}.get(entered)
                 pass_edges = []
                 for bi, t, e in g.switches():
-                    bt = bit_test(e)
-                    if bt is None:
-                        continue
-                    idx, neg = bt
-                    if const_int_of(idx) != c or c is None:
-                        continue
                     f, tr = g.bool_edges(bi)
-                    set_edge = f if neg else tr
-                    clear_edge = tr if neg else f
-                    pass_edges.append((bi, set_edge if want_bit else clear_edge))
+                    # the test itself, or a flag it was stored in (`let already = i.get() == 0 || bit(0); if already {..} else {..}`)
+                    for x, on_true, val in flag_cases(e):
+                        bt = bit_test(x)
+                        if bt is None:
+                            continue
+                        idx, neg = bt
+                        if const_int_of(idx) != c or c is None:
+                            continue
+                        if (val != neg) == bool(want_bit):
+                            pass_edges.append((bi, tr if on_true else f))
                 r = nx.reachable(0, removed_edges=pass_edges)
                 guarded = bool(pass_edges) and blk not in r and want_bit is not None
                 if guarded:
@@ -343,6 +344,37 @@ def r2(ctx):
             c = comparison(e)
             if c and c[0] in ("==", "!=") and const_int_of(c[2]) == 0 and "BucketIndex::get(self.state.0)" == fmt_short(c[1]):
                 visited.append((sbi, tr if c[0] == "==" else f))
+        # the two tests kept in a flag (`let already = i.get() == 0 || bit(0); if already { self.next() }`): where the flag is true it is
+        # the bit test (which then holds) or a literal `true`, and the literal is assigned only past one of the edges above
+        for sbi, st, e in g.switches():
+            inner, neg = e, False
+            while inner[0] == "un" and inner[1] == "Not":
+                inner, neg = inner[2], not neg
+            if inner[0] != "phi" or st.discr is None or st.discr.place is None or not st.discr.place.is_local():
+                continue
+            rest = [a for a in inner[1] if const_int_of(a) not in (0, 1)]
+            if not rest or not all(bit_test(a) is not None and const_int_of(bit_test(a)[0]) == 0 and not bit_test(a)[1] for a in rest):
+                continue
+            locs, true_blocks, okf = [st.discr.place.local], [], True
+            for l in locs:
+                for lhs, kind, payload, blk, _ln in prov.defs.get(l, ()):
+                    if blk not in nx.live_blocks():
+                        continue
+                    if kind == "rv" and payload.k == "use" and payload.ops and payload.ops[0].place is not None and payload.ops[0].place.is_local():
+                        if payload.ops[0].place.local not in locs:
+                            locs.append(payload.ops[0].place.local)
+                    elif kind == "rv" and payload.k == "use" and payload.ops and payload.ops[0].const_int() == 1:
+                        true_blocks.append(blk)
+                    elif kind == "rv" and payload.k == "use" and payload.ops and payload.ops[0].const_int() == 0:
+                        pass
+                    elif kind in ("call", "rv"):
+                        pass
+                    else:
+                        okf = False
+            r0 = nx.reachable(arm_entry["ZoomIn"][1], removed_edges=visited)
+            if okf and not any(tb in r0 for tb in true_blocks):
+                f, tr = g.bool_edges(sbi)
+                visited.append((sbi, f if neg else tr))
         r = nx.reachable(arm_entry["ZoomIn"][1], removed_edges=visited)
         rule.check(bool(visited) and bi not in r, "bucket 0 is passed over on leaving ZoomIn only if already visited (index 0) or bit 0 is set",
                    "ZoomIn|skip-bucket-0", "on leaving ZoomIn the iterator can skip bucket 0 although it was not yielded before", loc=nx.loc(t.line))
